@@ -38,7 +38,67 @@ func slashProfile() Profile {
 	return p
 }
 
+func configProfile() Profile {
+	p := baseProfile()
+	p.Name = "accepted-config"
+	p.Weights = map[string]int{KParams: 10, KUpdate: 12, KCreate: 6, KDelete: 3, KBlock: 34, KDelegate: 15, KUndelegate: 6, KRedelegate: 4, KSlash: 3, KSlashHook: 2, KClaim: 2, KJail: 1, KUnjail: 1, KNatDel: 1}
+	maxDur := int64(9223372036854775807)
+	p.Delays = []int64{0, 1, sec, 7 * day, maxDur}
+	p.Intervals = []int64{0, 1, sec, 300 * sec, day, maxDur}
+	p.ChInts = []int64{0, 1, sec, day, maxDur}
+	p.ChRates = []string{"0.000000000000000001", "0.5", "0.99", "1", "1", "1.01", "2", "1000000000000000000"}
+	p.TakeRates = []string{"0", "0.000000000000000001", "0.5", "0.999999", "0.999999999999999999"}
+	p.Weights_ = []string{"0", "0.000000000000000001", "0.5", "1", "5", "1000000000000"}
+	p.NoOverflowGuard = true
+	p.InvalidPct = 5
+	return p
+}
+
+func liveProfile() Profile {
+	p := baseProfile()
+	p.Name = "liveness"
+	p.MaxSteps = 25
+	p.Weights[KSlashHook] = 6
+	p.Weights[KSlash] = 6
+	return p
+}
+
 func init() {
+	register(&Spec{
+		ID:         "C05",
+		Profile:    func(tier string) Profile { return tierSteps(liveProfile(), tier) },
+		Oracles:    func() []Oracle { return []Oracle{&OracleC05{}} },
+		NonTrivial: func(x *Exec) bool { return x.Has("c05:probed-after-slash-or-takerate") },
+		Rule:       "stateful rapid histories (core profile with more slashes); after every step enabledness probes on discarded branches: a funded account delegates 1 unit and 1e18 units of every asset to every validator, every position with a positive reported balance claims and undelegates that full balance; non-trivial = probes run in a state reached after >=1 slash or take-rate deduction with >=2 positions; distinct = distinct concrete op list",
+	})
+	register(&Spec{
+		ID:         "C06",
+		Profile:    func(tier string) Profile { return tierSteps(slashProfile(), tier) },
+		Oracles:    func() []Oracle { return []Oracle{OracleC06{}} },
+		NonTrivial: func(x *Exec) bool { return x.Has("c06:uneven-multi-validator") },
+		Rule:       "stateful rapid histories, 'slash' profile; oracle = exact-rational metamorphic relation around every slash callback: positions on the slashed validator worth (1-f)*g*V, all others g*V, g = S/(S-f*s_v), staked total unchanged; non-trivial = slash of a validator holding the asset while >=2 validators hold it with uneven stake; distinct = distinct concrete op list",
+	})
+	register(&Spec{
+		ID: "C08",
+		Profile: func(tier string) Profile {
+			p := slashProfile()
+			p.Weights[KRedelegate] = 24
+			p.Weights[KUndelegate] = 16
+			return tierSteps(p, tier)
+		},
+		Oracles: func() []Oracle { return []Oracle{OracleC08{}} },
+		NonTrivial: func(x *Exec) bool {
+			return x.Has("c08:destination-position-gone") || x.Has("c08:destination-position-shrunk") || x.Has("c08:asset-deleted-while-redelegation-pending")
+		},
+		Rule: "stateful rapid histories, 'slash' profile biased to redelegate-then-undelegate / redelegate-onward shapes; oracle = the slashing callback returns nil without panic (callback level: return value; real staking slash: the error x/staking logs and swallows is captured from the logger) and leaves the rebalance flag set; non-trivial = slash with a pending redelegation out of the slashed validator whose destination position has since shrunk below the redelegated amount, disappeared, or whose asset was deleted; distinct = distinct concrete op list",
+	})
+	register(&Spec{
+		ID:         "C17",
+		Profile:    func(tier string) Profile { return tierSteps(configProfile(), tier) },
+		Oracles:    func() []Oracle { return []Oracle{OracleC17{}} },
+		NonTrivial: func(x *Exec) bool { return x.Has("c17:block-after-gov-change") },
+		Rule:       "stateful rapid histories, 'accepted-config' profile: parameter and asset values drawn from everything the governance handlers accept (durations 0, 1ns .. MaxInt64; rates 1e-18 .. 1e18; weights 0 .. 1e12) followed by blocks at all spacings; oracle = alliance.EndBlocker returns nil and does not panic; non-trivial = a block executed after a governance message was accepted mid-history; distinct = distinct concrete op list",
+	})
 	register(&Spec{
 		ID:      "C02",
 		Profile: func(tier string) Profile { return tierSteps(unbondProfile(), tier) },
